@@ -48,7 +48,8 @@ func (st *CompatibleSet[T]) add(ht Hint, v T) error {
 		return errors.WithMessage(err, "add to CompatibleSet")
 	}
 
-	st.cacheSet(ht.String(), [2]interface{}{ht, v})
+	// NOTE caches what find() answers, not the just added, possibly lower version
+	st.cacheSet(ht.String(), [2]interface{}{ht, st.set[ht.Type()][ht.Version().Major()]})
 
 	switch eht, found := st.typeheadhints[ht.Type()]; {
 	case !found:
